@@ -433,6 +433,22 @@ fn sc_swaps_and_routes(t: &mut Tracer) {
         w.swap(&tr, "o.skew", &[coin(900, "uusdc")], "uweth", None, half, None);
         w.route(&tr, &[h2("o.skew", "uusdc", "uweth")], &[coin(900, "uusdc")], None, None, half);
     }
+    // two pools that registered their shared denom with different decimals (uusdt: 6 in cp1, 18 in dd): amounts are raw
+    // units, so a route across them is quoted as it is executed
+    {
+        let lpu = w.user(1);
+        let ok = w.creation_funds();
+        let o = w.user(0);
+        w.create_pool(&o, &["uusdt", "uusd"], &[18, 6], fees(100, 0, 0, &[]), CP, Some("dd"), &ok);
+        w.provide(&lpu, "o.dd", &sorted(vec![coin(5_000_000_000, "uusdt"), coin(4_000_000_000, "uusd")]), None, None, None, None, None);
+        w.create_pool(&o, &["uusdt", "uusd"], &[18, 6], fees(0, 30, 0, &[]), SS(85), Some("dds"), &ok);
+        w.provide(&lpu, "o.dds", &sorted(vec![coin(5_000_000_000_000_000_000_000, "uusdt"), coin(4_000_000_000, "uusd")]), None, None, None, None, None);
+        for amt in [1_000u128, 1_000_000, 77_000_000] {
+            w.route(&tr, &[h2("o.cp1", "uusdc", "uusdt"), h2("o.dd", "uusdt", "uusd")], &[coin(amt, "uusdc")], None, None, half);
+            w.route(&tr, &[h2("o.dd", "uusd", "uusdt"), h2("o.cp1", "uusdt", "uusdc")], &[coin(amt, "uusd")], None, None, half);
+            w.route(&tr, &[h2("o.dds", "uusd", "uusdt"), h2("o.dd", "uusdt", "uusd")], &[coin(amt, "uusd")], None, None, half);
+        }
+    }
     // invalid swaps
     w.swap(&tr, "o.cp1", &[coin(10, "uusdc")], "uusdc", None, None, None);
     w.swap(&tr, "o.cp1", &[coin(10, "uweth")], "uusdt", None, None, None);
